@@ -64,8 +64,8 @@ type DecEvent struct {
 	Dynamic  bool
 	Dest     string // receiver field
 	DestType types.Type
-	Optional bool // tolerates absence by itself (Opt, pointer/slice destination)
-	Outcome  bool // for guards
+	Optional bool   // tolerates absence by itself (Opt, pointer/slice destination)
+	Outcome  bool   // for guards
 	Disc     string // for nested / prealloc: the receiver field (or "param:<name>") used as discriminant
 	Method   string
 	Callee   *ssa.Function
@@ -100,12 +100,12 @@ func (e DecEvent) String() string {
 
 // codecFn describes one hand-written coder function under analysis.
 type codecFn struct {
-	fn       *ssa.Function // the function whose body holds the events (the d.Struct closure, or the method itself)
-	outer    *ssa.Function
-	recvT    *types.Named
-	recvFV   ssa.Value // FreeVar (closure) or Parameter (method) standing for the receiver
-	coder    ssa.Value // the *Decoder / *Encoder parameter of fn
-	tagParam ssa.Value // the `tag int` parameter/free variable, if any
+	fn        *ssa.Function // the function whose body holds the events (the d.Struct closure, or the method itself)
+	outer     *ssa.Function
+	recvT     *types.Named
+	recvFV    ssa.Value // FreeVar (closure) or Parameter (method) standing for the receiver
+	coder     ssa.Value // the *Decoder / *Encoder parameter of fn
+	tagParam  ssa.Value // the `tag int` parameter/free variable, if any
 	structTag ssa.Value // tag argument passed to d.Struct/e.Struct by the outer function
 }
 
